@@ -566,6 +566,29 @@ def one(rec, hub, seed, tier, i):
                 rekeyed.check_mass_balance(raise_error=raise_error)
             except Exception:
                 pass
+    # a system assembled by hand whose processes dictionary is not in id order (the system environment is a process by NAME and id 0,
+    # wherever it stands in the dictionary): the verdicts are those of the same system
+    if len(mfa.processes) > 1 and i % 3 == 2:
+        order = [list(mfa.processes)[j] for j in rng.permutation(len(mfa.processes))]
+        if order[0] == "sysenv":
+            order = order[1:] + order[:1]
+        shuffled = fd.MFASystem(dims=mfa.dims, parameters=mfa.parameters, processes={n: mfa.processes[n] for n in order}, flows=mfa.flows, stocks=mfa.stocks)
+        hub.ctx["perturbation"] = "processes-dict-out-of-id-order"
+        for raise_error in (True, False):
+            try:
+                shuffled.check_mass_balance(raise_error=raise_error)
+            except Exception:
+                pass
+        undo = perturb(mfa, rng, 1e3 * (explicit if explicit is not None else default_tolerance(mfa)))
+        if undo is not None:
+            try:
+                for raise_error in (True, False):
+                    try:
+                        shuffled.check_mass_balance(raise_error=raise_error)
+                    except Exception:
+                        pass
+            finally:
+                undo()
     # integer-dtype flows
     if flows and i % 4 == 0:
         f = flows[0]
